@@ -335,6 +335,9 @@ def compare(c, impl, model):
 
 def oracle(c, impl, model):
     v = []
+    if impl.has("concurrent_equal") and impl.get("concurrent_equal") != 1:
+        v.append(("C19:%s:concurrent-callers-interfere" % c.kind, "a call made while other threads call the same functions on other data returned "
+                  "a result that differs from the same call made alone (hidden shared state)"))
     if c.kind in ("add", "sub"):
         sgn = 1.0 if c.kind == "add" else -1.0
         a, b = c.get("a"), c.get("b")
